@@ -3,8 +3,12 @@ Fq::sqrt  (q = 5 mod 8, SM9 Part 1 Annex C.1.4.1): verified in the exponent doma
 Euler's criterion (A2): x = 0;  x a non-zero square (X^((q-1)/2) = 1);  x a non-square (X^((q-1)/2) = -1):
    sqrt(0) = Some(0);   square  => Some(s) with s*s = x on every feasible path (soundness + completeness);   non-square => None.
 Fq2::sqrt: soundness -- every Some(s) returned satisfies s*s = x (final check / the b = 0 branch with the Fq contract); sqrt(0) = 0.
-Completeness of Fq2::sqrt is NOT decided by proof (it needs the multiplicativity of the quadratic character); it is covered by
-the contract-directed search on the real code only."""
+Fq2::sqrt completeness: for x = (p + r u)^2 with (p, r) != (0, 0) every feasible path returns Some (and by soundness a root).
+The Fq::sqrt calls are replaced by the FULL contract established above (sound, complete, sqrt(0) = Some(0)): for an argument that
+factors as c * g^2 the quadratic character is that of the constant c (ground Legendre symbol; chi(c g^2) = chi(c) for g != 0 is A2):
+   chi(c) = +1: Some(+-k g) with k^2 = c;    chi(c) = -1: Some(0) if g = 0, None if g != 0;    otherwise both outcomes.
+Every element of Fq2 that is a square has this form, and every a in Fq is a square in Fq2 (a = p^2 or a = -2 r^2 since -2 is a
+non-residue: ground fact), so "real" inputs are the sub-cases r = 0 / p = 0."""
 import re
 from vc import FnSpec, Case, ref
 from poly import Poly, V, C
@@ -104,3 +108,88 @@ def fq2_post(case, st, ret, interp):
     s = ret[2][0]
     return [('returned_root_squares_to_x', SYM.eq_components('Fq2', SYM.mul('Fq2', s, s), x))]
 SPECS.append(FnSpec('fq2::sqrt', 'src/fields/fq2.rs', r'<impl>::sqrt$', r'^\(&Fq2\) -> Option<Fq2>$', ('Fq',), fq2_cases, fq2_post, extra=EX2, prop=('C14',), max_paths=2000))
+
+
+# ---------------------------------------------------------------- Fq2::sqrt (completeness on squares)
+def _legendre(c):
+    c %= Q
+    return 0 if c == 0 else (1 if pow(c, (Q - 1) // 2, Q) == 1 else -1)
+
+def _sqrt_mod(c):
+    # q = 5 mod 8 (Atkin); only used to build the two roots +-k g of c g^2, re-checked by squaring
+    c %= Q
+    t = pow(2 * c, (Q - 5) // 8, Q)
+    i = 2 * c * t * t % Q
+    k = c * t * (i - 1) % Q
+    assert k * k % Q == c
+    return k
+
+def h_fq_sqrt_full(cx, interp, func, st, c, args):
+    """full contract of Fq::sqrt (obligations fp::Fq::sqrt/{zero,square,non_square}): decided from the factorisation c * g^2"""
+    from facts import factor
+    x = st.facts.norm(unref(interp, st, args[0]))
+    if st.facts.is_zero(x):
+        return [(st, Some(Poly()))]
+    cst, facs = factor(x)
+    import os
+    if os.environ.get('SQRT_DEBUG'):
+        print('   sqrt arg', x, '=', cst, facs, 'chi', _legendre(cst), '| trace', ' '.join(st.trace[-6:]))
+    odd = [f for f, e in facs if e % 2 == 1 and not st.facts.norm(f).is_const()]
+    out = []
+    if not odd:
+        g = Poly.const(1)
+        for f, e in facs:
+            g = g * (f ** (e // 2))
+        chi = _legendre(cst)
+        if chi == 1:
+            k = _sqrt_mod(cst)
+            # x = (k g)^2: the root is k g or -k g (integral domain); g = 0 gives 0 in both
+            for sgn in (1, -1):
+                s2 = st.fork()
+                s2.trace.append('sqrt=%sk*g' % ('+' if sgn > 0 else '-'))
+                out.append((s2, Some(st.facts.norm(C(sgn * k) * g))))
+            return out
+        if chi == -1:
+            # non-residue times a square: a square only if g = 0
+            try:
+                s0 = st.fork()
+                alts = s0.facts.assume_zero(g)
+                for n, fa in enumerate(alts):
+                    s2 = s0 if n == 0 else s0.fork()
+                    s2.facts = fa
+                    s2.trace.append('sqrt(0)')
+                    out.append((s2, Some(Poly())))
+            except Infeasible:
+                pass
+            try:
+                s3 = st.fork()
+                s3.facts.assume_nonzero(g)
+                s3.trace.append('sqrt=None(non-residue)')
+                out.append((s3, NONE))
+            except Infeasible:
+                pass
+            return out
+    # character unknown: both outcomes
+    return h_fq_sqrt(cx, interp, func, st, c, args)
+
+EX2C = {r'^Fq::sqrt$': h_fq_sqrt_full}
+
+def fq2c_cases():
+    p, r = V('p'), V('r')
+    def nz_p(facts):
+        facts.assume_nonzero(p)
+        # 2 and -2 are quadratic non-residues mod q (ground facts sqrt/two_is_non_residue, tower/minus_two_is_non_residue),
+        # so p^2 = 2 r^2 or p^2 = -2 r^2 would force p = r = 0
+        assert _legendre(2) == -1 and _legendre(-2) == -1
+        facts.assume_nonzero(p * p - 2 * r * r)
+        facts.assume_nonzero(p * p + 2 * r * r)
+    def nz_r(facts):
+        facts.assume_nonzero(r)
+    # x = (p + r u)^2 = (p^2 - 2 r^2) + (2 p r) u ;  p != 0, or p = 0 and r != 0
+    return [Case('square_p_nonzero', [ref(mk('Fq2', [p * p - 2 * r * r, 2 * p * r]))], nz_p),
+            Case('square_p_zero', [ref(mk('Fq2', [C(-2) * r * r, Poly()]))], nz_r)]
+def fq2c_post(case, st, ret, interp):
+    if ret[1] != 'Some':
+        raise Violation("sqrt of a square of Fq2 returned None (path %s)" % ' '.join(st.trace[-8:]))
+    return [('some_for_squares', [])]
+SPECS.append(FnSpec('fq2::sqrt_complete', 'src/fields/fq2.rs', r'<impl>::sqrt$', r'^\(&Fq2\) -> Option<Fq2>$', ('Fq',), fq2c_cases, fq2c_post, extra=EX2C, prop=('C14',), max_paths=4000))
